@@ -169,6 +169,7 @@ PROPS['C18'] = hist_prop(7,
     "fails it is carried forward bit for bit; aggregates of unreferenced pairs are dropped.",
     "none beyond the model/implementation correspondence")
 PROPS['C02']['projections'].append(dict(name='history', spec_index=1, n_quick=60, n_thorough=600))
+PROPS['C02']['projections'].append(dict(name='observe', spec_index=1, n_quick=300, n_thorough=8000))
 
 BRANCH_NAMES['determinism'] = ['evaluations', 'rounds']
 PROPS['C01'] = dict(
